@@ -103,6 +103,7 @@ type State struct {
 type deferred struct {
 	call *ssa.Defer
 	args []SV
+	fn   SV // deferred function literal with its bindings
 }
 
 func (s *State) clone() *State {
